@@ -64,8 +64,13 @@ def spellings(value):
         texts += [str(iv), f' {iv} ', f'{iv}.0', f'{iv}e0', f'{iv}E+0', f'{iv}.']
         if iv >= 0:
             texts += [f'+{iv}', f'0{iv}', f'{iv * 10}e-1']
+        if 0 <= iv < 10:
+            texts += [f'.{iv}e1', f'.{iv}E+1', f'+.{iv}e1']      # no digit before the decimal point
     else:
         texts += [repr(fv), f' {fv!r}', f'{fv * 10!r}e-1', f'{fv!r}E0']
+        if abs(fv) < 1:                                          # '.5', '-.25', '.5e0'
+            bare = repr(fv).replace('0.', '.', 1)
+            texts += [bare, bare + 'e0', bare + 'E+0'] + (['+' + bare] if fv > 0 else [])
     for t in texts:
         out.append((f'str {t!r}', t, 'n:' + w_text(t)))
     out.append((f'Text {texts[0]!r}', ft.Text(texts[0]), 'x:' + w_text(texts[0])))
@@ -119,7 +124,7 @@ def run(ctx):
                 'name spellings; registration decorators; non-trivial = distinct (function, position, spelling kind, value)')
     known = {e['id'] for e in ctx.known if e.get('status') == 'known'}
     thorough = ctx.tier == 'thorough' or ctx.widen
-    values = [3, 1, 0, -2, Fraction(5, 2)]
+    values = [3, 1, 0, -2, Fraction(5, 2), Fraction(1, 2), Fraction(-1, 4)]
     if thorough:
         # (kept small: FACT, POWER, DEC2BIN … are called with these values)
         values += [7, -13, Fraction(1, 8), Fraction(-7, 4), 100, 12]
